@@ -3,6 +3,7 @@ package props
 import (
 	"errors"
 	"fmt"
+	"io"
 	"testing"
 
 	"github.com/yaricom/goNEAT/v4/neat/network"
@@ -13,11 +14,11 @@ import (
 
 type C14Case struct {
 	Net  NetSpec `json:"net"`
-	Caps []int   `json:"caps"` // queries issued on one instance before the final uncapped one (0 = uncapped)
+	Caps []int   `json:"caps"` // queries issued on one instance before the final uncapped one (0 = uncapped, -1 = the paths are printed with PrintAllActivationDepthPaths instead, a read-only dump that shares the traversal)
 }
 
 func GenC14() *rapid.Generator[C14Case] {
-	dag := genNet(NetCfg{MinHidden: 1, AllowOrphans: true, LongChains: true, Rename: true})
+	dag := genNet(NetCfg{MinHidden: 1, AllowOrphans: true, LongChains: true, Rename: true, Dense: true})
 	cyc := genNet(NetCfg{MinHidden: 1, Cyclic: true, ParallelLinks: true, MaxHidden: 6, Rename: true})
 	return rapid.Custom(func(t *rapid.T) C14Case {
 		var c C14Case
@@ -28,7 +29,7 @@ func GenC14() *rapid.Generator[C14Case] {
 		}
 		n := rapid.IntRange(0, 4).Draw(t, "queries")
 		for i := 0; i < n; i++ {
-			c.Caps = append(c.Caps, rapid.IntRange(0, 8).Draw(t, "cap"))
+			c.Caps = append(c.Caps, rapid.IntRange(-1, 8).Draw(t, "cap"))
 		}
 		return c
 	})
@@ -51,6 +52,9 @@ func CheckC14(c C14Case, rec *Rec) error {
 	}
 	if len(c.Net.Nodes) > 32 {
 		rec.Class("more than 32 nodes")
+	}
+	if len(c.Net.Links) > 100 {
+		rec.Class("dense network (more than 100 links)")
 	}
 	if acyclic {
 		rec.Class("acyclic")
@@ -81,6 +85,16 @@ func CheckC14(c C14Case, rec *Rec) error {
 	// idempotence: any sequence of queries on one instance, then the uncapped answer again
 	capHit := false
 	for i, cap := range c.Caps {
+		if cap < 0 {
+			if len(c.Net.Links) > 60 {
+				continue // the dump of a dense network is long; the depth queries are what is checked there
+			}
+			if err := network.PrintAllActivationDepthPaths(net, io.Discard); err != nil {
+				return fmt.Errorf("PrintAllActivationDepthPaths returned error %v", err)
+			}
+			rec.Class("paths printed between the queries")
+			continue
+		}
 		got, err := net.MaxActivationDepthWithCap(cap)
 		if cap > 0 && cap < D {
 			capHit = true
